@@ -314,6 +314,9 @@ def _register_optional():
     import importlib.util
     if importlib.util.find_spec('libmem_common') is not None and _libmem_gen not in EXTRA_TRANSLATORS:
         EXTRA_TRANSLATORS.append(_libmem_gen)
+    if importlib.util.find_spec('c10_gen') is not None:
+        import c10_gen
+        c10_gen.register()
 
 
 try:
